@@ -343,7 +343,7 @@ Record schema := {
   s_out : list string               (* output_field_names *)
 }.
 
-(** load.py:213-319 : `format` bg2/coo and the --field arguments (already parsed); None = BadParameter *)
+(** load.py:213-319 : `format` bg2/coo and the --field arguments (already parsed); None = usage error (click) *)
 Definition load_schema (bg2 : bool) (fields : list fp_result) : option schema :=
   let names0 := if bg2 then ["chrom1"; "start1"; "end1"; "chrom2"; "start2"; "end2"]%string
                 else ["bin1_id"; "bin2_id"]%string in
@@ -366,7 +366,7 @@ Definition load_schema (bg2 : bool) (fields : list fp_result) : option schema :=
         end) fields (Some {| s_in := names0; s_num := nums0; s_out := out0 |})
   end.
 
-(** cload.py:528-594 : positional numbers are the one-based -c1 -p1 -c2 -p2 ; None = BadParameter *)
+(** cload.py:528-594 : positional numbers are the one-based -c1 -p1 -c2 -p2 ; None = usage error (click) *)
 Definition cload_schema (c1 p1 c2 p2 : Z) (fields : list fp_result) : option schema :=
   if (c1 =? 0) || (p1 =? 0) || (c2 =? 0) || (p2 =? 0) then None else
   let s0 := {| s_in := ["chrom1"; "pos1"; "chrom2"; "pos2"]%string;
